@@ -48,7 +48,7 @@ PROBES = ["image_size_changed_mid_iteration", "url_404", "url_garbage_body", "ur
           "iterator_abandoned_and_collected", "iterator_closed_early", "iterator_exhausted",
           "fault_in_convert", "fault_in_resize", "fault_in_save", "fault_in_seek",
           "fault_in_open", "caller_pil_image_survives", "animated_draw_keeps_tell",
-          "image_closed_under_live_iterator",
+          "image_closed_under_live_iterator", "two_seeks_without_next",
           "frame_equals_direct_format", "seek_then_next", "temp_write_failed"]
 COMPONENTS = {
     "real": ["BaseImage (from_file, from_url, close, _get_image, _close_image, _renderer, "
@@ -591,6 +591,14 @@ def run(ch, ctx, fault=None):
                     im = itd["img"]
                     pos = ch.int("spos", -1, im["n"]) if ch.bool("badpos", 0.2) else ch.int("spos", 0, im["n"] - 1)
                     desc = "%s.seek(%d)" % (itd["desc"], pos)
+                    if not itd.get("orphan") and itd["started"] and not itd["closed"] \
+                            and not im["image"].closed and ch.bool("seek_twice", 0.3):
+                        # the application changes its mind before the next frame is taken:
+                        # the last seek counts
+                        first = ch.int("spos0", 0, im["n"] - 1)
+                        itd["it"].seek(first)
+                        desc = "%s.seek(%d); .seek(%d)" % (itd["desc"], first, pos)
+                        ctx.probe("two_seeks_without_next")
                     if itd.get("orphan"):
                         try:        # iterator over a finalized image: nothing is promised
                             itd["it"].seek(pos)
@@ -622,6 +630,11 @@ def run(ch, ctx, fault=None):
                               "seek")
                         itd["pos"] = pos
                         ctx.probe("seek_then_next")
+                        if "; .seek(" in desc:
+                            # (after two seeks in a row the frame is taken right away)
+                            site = "next"
+                            op = "next"      # (a failure from here on is a failed next())
+                            desc = desc + "; " + do_next(itd)
                 elif op == "itclose":
                     desc = "%s.close()" % itd["desc"]
                     if not itd["closed"]:
